@@ -61,11 +61,12 @@ func (m c09Matcher) match(labels map[string]string) bool {
 }
 
 func c09Matchers() [][]c09Matcher {
-	vals := map[string][]string{"job": {"a", "ab", "a|b", ".*", ".+", ""}, "inst": {"1", "12", "1|2", ".*", ".+", ""}}
+	vals := map[string][]string{"job": {"a", "ab", "a|b", ".*", ".+", ""}, "inst": {"1", "12", "1|2", ".*", ".+", ""},
+		"zz": {"x", ".*", ""}} // zz: a label no series carries (absent = empty)
 	ops := []string{"=", "!=", "=~", "!~"}
 	var single [][]c09Matcher
 	byLabel := map[string][]c09Matcher{}
-	for _, l := range []string{"job", "inst"} {
+	for _, l := range []string{"job", "inst", "zz"} {
 		for _, op := range ops {
 			for _, v := range vals[l] {
 				m := c09Matcher{l, op, v}
@@ -77,6 +78,9 @@ func c09Matchers() [][]c09Matcher {
 	out := single
 	for _, a := range byLabel["job"] {
 		for _, b := range byLabel["inst"] {
+			out = append(out, []c09Matcher{a, b})
+		}
+		for _, b := range byLabel["zz"] {
 			out = append(out, []c09Matcher{a, b})
 		}
 	}
@@ -265,7 +269,13 @@ func c09Run(w0 *kernel.Worker, j *c09Job, rep *kernel.Report) (*Fail, error) {
 		for _, m := range ms {
 			opClass += m.Op
 		}
-		if err := check("selector"+opClass, q, want); err != nil {
+		cls := "selector" + opClass
+		for _, m := range ms {
+			if m.Label == "zz" {
+				cls = "selector-on-a-label-no-series-carries" // one root cause, whatever the operators
+			}
+		}
+		if err := check(cls, q, want); err != nil {
 			return die(err)
 		}
 	}
@@ -283,55 +293,82 @@ func c09Run(w0 *kernel.Worker, j *c09Job, rep *kernel.Report) (*Fail, error) {
 		{" without (inst)", func(l map[string]string) map[string]string { return map[string]string{"job": l["job"]} }},
 		{" without (job, inst)", func(l map[string]string) map[string]string { return map[string]string{} }},
 	}
+	// the aggregated vector is the metric itself or a selection of it by matchers on a label that is not (only) the grouping key
+	selections := [][]c09Matcher{nil, {{"inst", "=~", ".+"}}, {{"inst", "!=", "zz"}}, {{"job", "=~", "a.*"}}, {{"inst", "!=", "1"}}, {{"job", "!~", "ab"}, {"inst", "=~", "1|12"}}}
 	for _, agg := range []string{"sum", "min", "max", "avg", "count"} {
 		for _, g := range groupings {
-			want := c09Vec{}
-			members := map[string][]string{}
-			for k, l := range mLabels {
-				gk := lkey(g.keep(l))
-				members[gk] = append(members[gk], k)
-			}
-			for gk, ks := range members {
-				want[gk] = map[uint32]float64{}
-				for t := 0; t < c09Steps; t++ {
-					ts := MT0 + 1 + uint32(t)
-					var vs []float64
-					for _, k := range ks {
-						vs = append(vs, mVec[k][ts])
+			for si, sel := range selections {
+				want := c09Vec{}
+				members := map[string][]string{}
+				for k, l := range mLabels {
+					ok := true
+					for _, mt := range sel {
+						if !mt.match(l) {
+							ok = false
+						}
 					}
-					sort.Float64s(vs)
-					s := 0.0
-					for _, v := range vs {
-						s += v
+					if !ok {
+						continue
 					}
-					switch agg {
-					case "sum":
-						want[gk][ts] = s
-					case "min":
-						want[gk][ts] = vs[0]
-					case "max":
-						want[gk][ts] = vs[len(vs)-1]
-					case "avg":
-						want[gk][ts] = s / float64(len(vs))
-					case "count":
-						want[gk][ts] = float64(len(vs))
+					gk := lkey(g.keep(l))
+					members[gk] = append(members[gk], k)
+				}
+				for gk, ks := range members {
+					want[gk] = map[uint32]float64{}
+					for t := 0; t < c09Steps; t++ {
+						ts := MT0 + 1 + uint32(t)
+						var vs []float64
+						for _, k := range ks {
+							vs = append(vs, mVec[k][ts])
+						}
+						sort.Float64s(vs)
+						s := 0.0
+						for _, v := range vs {
+							s += v
+						}
+						switch agg {
+						case "sum":
+							want[gk][ts] = s
+						case "min":
+							want[gk][ts] = vs[0]
+						case "max":
+							want[gk][ts] = vs[len(vs)-1]
+						case "avg":
+							want[gk][ts] = s / float64(len(vs))
+						case "count":
+							want[gk][ts] = float64(len(vs))
+						}
 					}
 				}
-			}
-			q := agg + g.clause + " (" + mName + ")"
-			if g.clause == "" {
-				q = agg + "(" + mName + ")"
-			}
-			cls := "agg-" + agg
-			if g.clause == " without (job, inst)" {
-				cls = "agg-without-all-labels"
-			} else if strings.Contains(g.clause, "without") {
-				cls += "-without"
-			} else if g.clause != "" {
-				cls += "-by"
-			}
-			if err := check(cls, q, want); err != nil {
-				return die(err)
+				arg := mName
+				if len(sel) > 0 {
+					var ms []string
+					for _, mt := range sel {
+						ms = append(ms, mt.String())
+					}
+					arg = mName + "{" + strings.Join(ms, ",") + "}"
+				}
+				q := agg + g.clause + " (" + arg + ")"
+				if g.clause == "" {
+					q = agg + "(" + arg + ")"
+				}
+				cls := "agg-" + agg
+				if si > 0 {
+					cls = "agg-over-selection-" + agg
+					if len(members) == 0 {
+						cls = "agg-over-empty-selection-" + agg
+					}
+				}
+				if g.clause == " without (job, inst)" {
+					cls = "agg-without-all-labels"
+				} else if strings.Contains(g.clause, "without") {
+					cls += "-without"
+				} else if g.clause != "" {
+					cls += "-by"
+				}
+				if err := check(cls, q, want); err != nil {
+					return die(err)
+				}
 			}
 		}
 	}
